@@ -73,10 +73,10 @@ def make_data(seed, model, lead, K, D, ds):
         src = 1.2 * steer * np.exp(2j * np.pi * r.uniform(size=lead + (N, 1)))
         nz = A.cnormal(r, lead + (N, D)) * np.sqrt(2)
         y = np.where(lab, src + nz, nz)
-    elif ds == 'close' and cplx:
-        # tight classes of unequal spread (concentrations of about 300, 80, 35) whose directions are only 0.15 rad apart: they overlap,
+    elif ds.startswith('close') and cplx:
+        # tight classes of unequal spread (concentrations of about 300, 80, 35; 'close', 'close_b', ... are independent draws) whose directions are only 0.15 rad apart: they overlap,
         # so the value of each class normaliser matters for the posterior
-        r = A.rng(seed, 'c02close', model, K, D, lead)
+        r = A.rng(seed, 'c02close', ds, model, K, D, lead)
         y = np.zeros(lead + (N, D), complex)
         for idx in np.ndindex(*lead):
             Q, _ = np.linalg.qr(A.cnormal(r, (D, D)))
@@ -336,10 +336,10 @@ def subchecks(tier, seed):
                         for eps in (('default', 0.0) if model in ('cacgmm', 'gcacgmm') else ('none',)):
                             for K in (2, 3):
                                 for D in (2, 3):
-                                    for ds in datasets + ('close',):
+                                    for ds in datasets + ('close', 'close_b', 'close_c', 'close_d'):
                                         if ds in ('outlier', 'small') and model not in ('gmm', 'gcacgmm'):
                                             continue
-                                        if ds == 'close' and (model not in ('cwmm', 'cacgmm', 'cbmm') or D != 3 or
+                                        if ds.startswith('close') and (model not in ('cwmm', 'cacgmm') or D != 3 or
                                                               salk != 'none'):
                                             continue
                                         for st in starts:
